@@ -5,6 +5,5 @@ package bfe_http2
 
 import "verif/simrt"
 
-func runInflow(s *simrt.Sim)                      {}
-func runState(focus string) func(s *simrt.Sim)    { return func(s *simrt.Sim) {} }
-func runFlood(s *simrt.Sim)                       {}
+func runState(focus string) func(s *simrt.Sim) { return func(s *simrt.Sim) {} }
+func runFlood(s *simrt.Sim)                    {}
